@@ -12,7 +12,7 @@
 (* [nP, nR, surv] over all tie orders, from the input alone, with the      *)
 (* operators of PipelineOps; every clause is a named invariant.            *)
 (***************************************************************************)
-EXTENDS PipelineOps, Json, IOUtils, TLC
+EXTENDS PipelineOps, SequencesExt, Json, IOUtils, TLC
 
 T == ndJsonDeserialize(IOEnv.TRACE_FILE)
 
@@ -24,24 +24,27 @@ C   == R.cfg
 Im  == {C.im[i] : i \in 1..Len(C.im)}
 Gm  == {C.gm[i] : i \in 1..Len(C.gm)}
 
-\* the unmatched instance pair the matcher sees
-UnmPr == IF C.input = "SEM" THEN Approximate(C.backend, R.shape, R.pred) ELSE R.pred
-UnmRf == IF C.input = "SEM" THEN Approximate(C.backend, R.shape, R.ref)  ELSE R.ref
+(***************************************************************************)
+(* Class groups (C12, Groups.tla): a record may name one class group       *)
+(* (glabels, gkind in {"plain","merge","single"}) of an evaluator whose    *)
+(* groups cover the labels gall.  The group's result is, by definition,    *)
+(* the ungrouped result of the two arrays restricted to the group's labels *)
+(* (binarised first for a merge group; one already-matched instance for a  *)
+(* single-instance group).                                                 *)
+(***************************************************************************)
+Grouped == Len(R.glabels) > 0
+GL      == {R.glabels[i] : i \in 1..Len(R.glabels)}
+GAll    == {R.gall[i] : i \in 1..Len(R.gall)}
+Restr(arr) == IF ~Grouped THEN arr
+              ELSE IF R.gkind = "merge" THEN Binarize(RestrictTo(arr, GL)) ELSE RestrictTo(arr, GL)
+InPred  == Restr(R.pred)
+InRef   == Restr(R.ref)
+Single  == Grouped /\ R.gkind = "single"
+Kind    == IF Single THEN "MAT" ELSE C.input
+Dthr    == IF Single /\ C.input # "MAT" THEN <<0, 1>> ELSE C.dthr
+Undefined == Grouped /\ ~((Labels(R.pred) \cup Labels(R.ref)) \subseteq GAll)
 
-\* matched situations [nP, nR, pairs] the documented procedure allows
-Situations ==
-    IF C.input = "MAT"
-    THEN {[nP |-> Cardinality(Labels(R.pred)), nR |-> Cardinality(Labels(R.ref)),
-           pairs |-> PairsOfMatched(R.pred, R.ref)]}
-    ELSE LET pr == UnmPr  rf == UnmRf
-             nP == Cardinality(Labels(pr))  nR == Cardinality(Labels(rf))
-         IN IF nP = 0 \/ nR = 0 THEN {[nP |-> nP, nR |-> nR, pairs |-> {}]}
-            ELSE {[nP |-> NPredAfter(pr, lm), nR |-> nR, pairs |-> PairsOfLm(pr, rf, lm)]
-                    : lm \in AllowedLabelMaps(C.matcher, C.mm, C.thr, R.shape, pr, rf)}
-
-Expected ==
-    UNION {{[nP |-> s.nP, nR |-> s.nR, surv |-> sv] : sv \in Survivors(C.dm, C.dthr, R.shape, s.pairs)}
-             : s \in Situations}
+Expected == ExpectedOf(Kind, C.backend, C.matcher, C.mm, C.thr, C.dm, Dthr, R.shape, InPred, InRef)
 
 Init == tid \in 1..Len(T) /\ l = 0 /\ E = {}
 Next == /\ l = 0 /\ l' = 1 /\ UNCHANGED tid
@@ -56,7 +59,9 @@ Uniq  == Ok /\ Unamb
 Res   == R.res
 
 \* ---- C01 / C08: evaluation completes and reports the definitional answer ----
-T_Completes == Go => R.out = "ok"
+T_Completes == (Go /\ ~Undefined) => R.out = "ok"
+\* C12: input with a non-zero label that belongs to no group is rejected
+T_UndefinedRejected == (Go /\ Undefined) => R.out = "raise"
 T_Counts    == Uniq => CountsOK(Res, One1.nP, One1.nR)
 T_Tp        == Uniq => TpOK(Res, One1.surv)
 T_FpFn      == Uniq => FpFnOK(Res, One1.nP, One1.nR, One1.surv)
@@ -75,7 +80,7 @@ T_Ambiguous == (Ok /\ ~Unamb) =>
                  /\ StdOK(Res, Im, R.shape, C.h, e.surv)
 
 \* ---- C13: global binary metrics depend only on the two foregrounds ----
-T_Global    == Ok => GlobalsOK(Res, Gm, R.shape, C.h, Fg(R.pred), Fg(R.ref))
+T_Global    == Ok => GlobalsOK(Res, Gm, R.shape, C.h, Fg(InPred), Fg(InRef))
 
 \* ---- C02: bookkeeping of the reported result itself ----
 T_BookCounts == Ok => BookCounts(Res)
@@ -85,5 +90,53 @@ T_BookSq     == Ok => BookSq(Res, Im) /\ BookSqAssd(Res, Im)
 T_BookStd    == Ok => BookStd(Res, Im)
 T_BookPq     == Ok => BookPq(Res, Im)
 T_BookRanges == Ok => BookRanges(Res, Im)
-T_BookDecision == Ok => BookDecision(Res, C.dm, C.dthr)
+T_BookDecision == Ok => BookDecision(Res, C.dm, Dthr)
+
+(***************************************************************************)
+(* Relational clauses (C09, C10, C11, C12): a record may carry a second    *)
+(* reported result resB of a *related* evaluation (rel):                   *)
+(*   "same"  the input renamed / re-typed / padded / flipped / permuted /  *)
+(*           the ungrouped evaluation of the restricted arrays: everything *)
+(*           reported must be unchanged                                    *)
+(*   "swap"  prediction and reference exchanged: tp and the IoU/Dice/ASSD  *)
+(*           values equal, fp/fn exchanged, RVD r -> -r/(1+r)              *)
+(* Stated when the matching is uniquely determined (Unamb); otherwise each *)
+(* run only has to be one of the allowed answers (its own Trace_Eval run). *)
+(***************************************************************************)
+Rel   == R.rel
+ResB  == R.resb
+HasB  == Uniq /\ Rel # "none" /\ R.outb = "ok"
+MilliSorted(xs) == SortSeq([i \in 1..Len(xs) |-> xs[i].v[1]], LAMBDA a, b : a < b)
+SameList(m, xs, ys) ==
+    /\ Len(xs) = Len(ys)
+    /\ IF m = "ASSD"
+       THEN LET a == MilliSorted(xs)  b == MilliSorted(ys) IN \A i \in 1..Len(a) : Abs(a[i] - b[i]) <= 1
+       ELSE SameBag([i \in 1..Len(xs) |-> IF xs[i].k = "rat" THEN Norm(xs[i].v) ELSE <<0, 0>>],
+                    [i \in 1..Len(ys) |-> IF ys[i].k = "rat" THEN Norm(ys[i].v) ELSE <<0, 0>>])
+MirrorRvd(x) == IF x.k = "rat" /\ x.v[1] + x.v[2] # 0 THEN RatV(Norm(Div(Neg(x.v), Add(One, x.v)))) ELSE x
+SameV(m, x, y) == IF x.k = "skip" \/ y.k = "skip" THEN TRUE
+                  ELSE IF m = "ASSD" /\ x.k = "milli" /\ y.k = "milli" THEN Abs(x.v[1] - y.v[1]) <= 1
+                  ELSE SameValue(x, y)
+T_RelCompletes == (Uniq /\ Rel # "none") => R.outb = "ok"
+T_RelCounts == HasB =>
+    IF Rel = "swap"
+    THEN Res.tp = ResB.tp /\ Res.fp = ResB.fn /\ Res.fn = ResB.fp /\ Res.nref = ResB.npred /\ Res.npred = ResB.nref
+    ELSE Res.tp = ResB.tp /\ Res.fp = ResB.fp /\ Res.fn = ResB.fn /\ Res.nref = ResB.nref /\ Res.npred = ResB.npred
+T_RelLists == HasB =>
+    \A m \in Im :
+        IF Rel = "swap" /\ m = "RVD"
+        THEN SameList(m, [i \in 1..Len(Res.lists[m]) |-> MirrorRvd(Res.lists[m][i])], ResB.lists[m])
+        ELSE SameList(m, Res.lists[m], ResB.lists[m])
+T_RelSq == HasB =>
+    /\ SameValue(Res.rq, ResB.rq)
+    /\ \A m \in Im \ (IF Rel = "swap" THEN {"RVD"} ELSE {}) :
+          /\ (Res.tp > 0 \/ Rel # "swap") => SameV(m, Res.sq[m], ResB.sq[m])
+          /\ (Res.tp > 0 \/ Rel # "swap") => SameV("x", Res.std[m], ResB.std[m])
+    /\ \A m \in Im \cap PqMetrics : (Res.tp > 0 \/ Rel # "swap") => SameV(m, Res.pq[m], ResB.pq[m])
+T_RelGlobal == HasB =>
+    \A m \in Gm :
+        IF Rel = "swap"
+        THEN (Fg(InPred) # {} /\ Fg(InRef) # {}) =>
+                SameV(m, IF m = "RVD" THEN MirrorRvd(Res.glob[m]) ELSE Res.glob[m], ResB.glob[m])
+        ELSE SameV(m, Res.glob[m], ResB.glob[m])
 =============================================================================
